@@ -467,8 +467,12 @@ def run_stream(stream, rng, tier, findings, budget_scale=1.0):
     t_impl = time.time() - t0
     reqs = []
     spans = []
+    def broken(o):
+        # the implementation side of the case ended in an exception the stream does not expect, or did not return
+        return isinstance(o, list) and len(o) >= 1 and o[0] in ("impl-timeout", "impl-exception") and len(o) <= 2
+
     for c, o in zip(cases, impl_obs):
-        r = stream.requests(c, o)
+        r = [] if broken(o) else stream.requests(c, o)
         spans.append((len(reqs), len(reqs) + len(r)))
         reqs.extend(r)
     t1 = time.time()
@@ -480,6 +484,11 @@ def run_stream(stream, rng, tier, findings, budget_scale=1.0):
     hist = {}
     unmodelled = 0
     for c, o, (a, b) in zip(cases, impl_obs, spans):
+        if broken(o):
+            # never on the unchanged tree; with a changed implementation this IS the failing input
+            prop_failures.append({"case": c, "impl": o, "what": "the calls of this case did not complete: %r" % (o,)})
+            hist["impl-exception"] = hist.get("impl-exception", 0) + 1
+            continue
         m = stream.model(c, replies[a:b], o)
         if m == "UNMODELLED":
             unmodelled += 1
@@ -516,8 +525,17 @@ def run_stream(stream, rng, tier, findings, budget_scale=1.0):
     }
 
 
+def safe_prop(stream, case, o):
+    """stream.prop, with the observation of a call that did not complete judged here (streams need not expect it)"""
+    if isinstance(o, list) and 1 <= len(o) <= 2 and o[0] in ("impl-timeout", "impl-exception"):
+        return "the calls of this case did not complete: %r" % (o,)
+    return stream.prop(case, o)
+
+
 def still_disagrees(stream, case):
     o = run_impl(stream, case)
+    if isinstance(o, list) and 1 <= len(o) <= 2 and o[0] in ("impl-timeout", "impl-exception"):
+        return True, o, ["model-has-no-opinion"]
     reqs = stream.requests(case, o)
     replies = Driver(stream.cluster).batch(reqs) if reqs else []
     m = stream.model(case, replies, o)
@@ -562,7 +580,7 @@ def search_failing_input(stream, seeds, rng, tier, limit_s=120):
             continue
         tried += 1
         o = run_impl(stream, c)
-        f = stream.prop(c, o)
+        f = safe_prop(stream, c, o)
         if f is not None:
             found.append({"case": c, "impl": o, "what": f})
             if len(found) >= 5:
@@ -577,7 +595,7 @@ def search_failing_input(stream, seeds, rng, tier, limit_s=120):
                 continue
             tried += 1
             o = run_impl(stream, c)
-            f = stream.prop(c, o)
+            f = safe_prop(stream, c, o)
             if f is not None:
                 found.append({"case": c, "impl": o, "what": f})
                 if len(found) >= 5:
@@ -773,7 +791,7 @@ def do_replay(pid, streams, path):
     for st in streams:
         if st.name == name:
             bad, o, m = still_disagrees(st, case)
-            f = st.prop(case, o)
+            f = safe_prop(st, case, o)
             print("case: %s" % json.dumps(case))
             print("implementation: %s" % json.dumps(o))
             print("model         : %s" % json.dumps(m))
